@@ -388,10 +388,10 @@ def _traj_check(kind, A4, U4, V4, svals, gamma, K, resid=True, sparse=False):
             model = rt.qmm(rt.qmm(V4, D), rt.qH(U4))
         err = rt.fro(X4 - model)
         tolm = 1e-9 * (k + 1) * max(1.0, rt.fro(model))
-        if err > tolm:
+        if not (err <= tolm):
             return {"what": "iterate differs from the spectral model V diag(t_k/s) U^H", "k": k, "err": err, "tol": tolm}
         e1 = rt.fro(rt.qmm(rt.qmm(A4, X4), A4) - A4)
-        if prev_e1 is not None and e1 > prev_e1 * (1 + 1e-9) + 1e-12 * scale:
+        if prev_e1 is not None and not (e1 <= prev_e1 * (1 + 1e-9) + 1e-12 * scale):
             return {"what": "||AXA-A|| increased", "k": k, "e1": e1, "prev": prev_e1}
         prev_e1 = e1
         if resid or not kind.startswith("ns"):
@@ -402,7 +402,7 @@ def _traj_check(kind, A4, U4, V4, svals, gamma, K, resid=True, sparse=False):
                 AX, XA = rt.qmm(A4, X4), rt.qmm(X4, A4)
                 true = {"AXA-A": e1, "XAX-X": rt.fro(rt.qmm(XA, X4) - X4), "AX-herm": rt.fro(AX - rt.qH(AX)), "XA-herm": rt.fro(XA - rt.qH(XA))}
                 for key in KEYS:
-                    if abs(res[key][-1] - true[key]) > 1e-9 * max(1.0, scale, rt.fro(X4)) * max(1.0, scale):
+                    if not (abs(res[key][-1] - true[key]) <= 1e-9 * max(1.0, scale, rt.fro(X4)) * max(1.0, scale)):
                         return {"what": f"history {key} is not the residual of the returned iterate", "k": k, "reported": res[key][-1], "true": true[key]}
         if kind.startswith("ns") and len(third) != k:
             return {"what": f"covariance history has {len(third)} entries after {k} iterations"}
